@@ -247,7 +247,11 @@ class C02(Prop):
             return "F-C02"
         return None
 
+    _budget = rc.ShrinkBudget(45.0)
+
     def shrink_candidates(self, case):
+        if not self._budget.ok():
+            return
         evs = case["events"]
         for i in range(len(evs)):
             if evs[i][0] != "exit":
